@@ -234,7 +234,13 @@ def _argstr_alternation():
     n = 0
     pools = [sentences('quick', v)[0] for v in (0, 1)]
     pw = G.LexWriter('polish', 'text', 'ascii')
+    bad_strs = ['Fm:Fmn', 'Gmn:Gm', 'KFmFmn', 'Hm:a:Hmno', 'VxFx:Fmn:a']
     for i in range(0, 400):
+        # an ill-formed argument string in between: its failure must leave nothing behind
+        try:
+            G.Argument(bad_strs[i % len(bad_strs)])
+        except Exception:
+            pass
         for v in (0, 1):
             s = pools[v][(i * 37) % len(pools[v])]
             if not s.predicates:
